@@ -220,3 +220,775 @@ Section PercFacts.
   Lemma inform_nil g v : inform A aeqb get put g v [] = Ok g.
   Proof. unfold inform. rewrite Nat.add_1_r. reflexivity. Qed.
 End PercFacts.
+
+(* ------------------------------------------------------------------------------------------ *)
+(* instances *)
+Lemma loop_eqb_spec a b : loop_eqb a b = true <-> a = b.
+Proof.
+  destruct a, b; simpl; split; intros H; try discriminate; try reflexivity.
+  - apply Nat.eqb_eq in H. congruence.
+  - injection H as ->. apply Nat.eqb_refl.
+Qed.
+
+Lemma bool_eqb_spec (a b : bool) : Bool.eqb a b = true <-> a = b.
+Proof. apply eqb_true_iff. Qed.
+
+Definition extL (v : loop_id) (g g' : graph) : Prop :=
+  length g' = length g /\
+  forall i, gu g' i = gu g i /\ gd g' i = gd g i /\ ga g' i = ga g i /\
+            (gl g' i = gl g i \/ (gl g i = None /\ gl g' i = Some v /\ i < length g)).
+Definition extA (v : bool) (g g' : graph) : Prop :=
+  length g' = length g /\
+  forall i, gu g' i = gu g i /\ gd g' i = gd g i /\ gl g' i = gl g i /\
+            (ga g' i = ga g i \/ (ga g i = None /\ ga g' i = Some v /\ i < length g)).
+
+Lemma inform_loop_ext g v ups g' :
+  inform_loop g v ups = Ok g' \/ inform_loop g v ups = Raise g' -> extL v g g'.
+Proof.
+  intros H. unfold inform_loop, inform in H.
+  apply (perc_ext loop_id loop_eqb nloop put_loop (option bool) nasync) in H; auto.
+Qed.
+
+Lemma inform_async_ext g v ups g' :
+  inform_async g v ups = Ok g' \/ inform_async g v ups = Raise g' -> extA v g g'.
+Proof.
+  intros H. unfold inform_async, inform in H.
+  apply (perc_ext bool Bool.eqb nasync put_async (option loop_id) nloop) in H; auto.
+Qed.
+
+Lemma inform_loop_ok g v ups g' : inform_loop g v ups = Ok g' ->
+  (forall i, In i ups -> i < length g -> gl g' i = Some v) /\
+  (forall x, gl g x = None -> gl g' x = Some v ->
+     forall y, In y (gu g x ++ gd g x) -> y < length g -> gl g' y = Some v).
+Proof.
+  intros H. unfold inform_loop, inform in H.
+  apply (perc_ok loop_id loop_eqb nloop put_loop (option bool) nasync) in H; auto.
+  apply loop_eqb_spec.
+Qed.
+
+Lemma inform_async_ok g v ups g' : inform_async g v ups = Ok g' ->
+  (forall i, In i ups -> i < length g -> ga g' i = Some v) /\
+  (forall x, ga g x = None -> ga g' x = Some v ->
+     forall y, In y (gu g x ++ gd g x) -> y < length g -> ga g' y = Some v).
+Proof.
+  intros H. unfold inform_async, inform in H.
+  apply (perc_ok bool Bool.eqb nasync put_async (option loop_id) nloop) in H; auto.
+  apply bool_eqb_spec.
+Qed.
+
+Lemma inform_loop_fuel g v ups : inform_loop g v ups <> OutOfFuel.
+Proof. apply inform_fuel. reflexivity. Qed.
+Lemma inform_async_fuel g v ups : inform_async g v ups <> OutOfFuel.
+Proof. apply inform_fuel. reflexivity. Qed.
+
+(* ------------------------------------------------------------------------------------------ *)
+(* fuel: `construct` never answers OutOfFuel *)
+Lemma stage1_fuel c g r : stage1 c g r <> OutOfFuel.
+Proof.
+  unfold stage1. destruct (r_async r); [apply inform_async_fuel|].
+  destruct (fix_join c); [|discriminate]. destruct (self_async1 g r); [apply inform_async_fuel|discriminate].
+Qed.
+Lemma stage2_fuel c g r : stage2 c g r <> OutOfFuel.
+Proof.
+  unfold stage2. destruct (r_loop r); [apply inform_loop_fuel|].
+  destruct (fix_join c); [|discriminate]. destruct (self_loop2 g r); [apply inform_loop_fuel|discriminate].
+Qed.
+Lemma stage3_fuel f g r : stage3 f g r <> OutOfFuel.
+Proof. unfold stage3. destruct f; [apply inform_async_fuel|discriminate]. Qed.
+Lemma stage4_fuel c g r l a : stage4 c g r l a <> OutOfFuel.
+Proof. unfold stage4. destruct l; [discriminate|]. destruct a; [apply inform_loop_fuel|discriminate]. Qed.
+
+Theorem construct_fuel_enough c g r : construct c g r <> OutOfFuel.
+Proof.
+  unfold construct.
+  pose proof (stage1_fuel c g r) as F1. destruct (stage1 c g r) as [g1| |]; simpl; try congruence.
+  pose proof (stage2_fuel c g1 r) as F2. destruct (stage2 c g1 r) as [g2| |]; simpl; try congruence.
+  set (fire := ensure_fires c r (self_async1 g r) (self_loop2 g1 r)).
+  pose proof (stage3_fuel fire g2 r) as F3. destruct (stage3 fire g2 r) as [g3| |]; simpl; try congruence.
+  match goal with |- context [stage4 ?c ?g ?r ?l ?a] =>
+    pose proof (stage4_fuel c g r l a) as F4; destruct (stage4 c g r l a) end; simpl; congruence.
+Qed.
+
+(* ------------------------------------------------------------------------------------------ *)
+(* first_loop / first_true *)
+Lemma first_loop_none g ups : first_loop g ups = None -> forall u, In u ups -> u < length g -> gl g u = None.
+Proof.
+  induction ups as [|a ups IH]; simpl; intros H u Hin Hlt; [tauto|].
+  destruct (nth_error g a) as [nd|] eqn:E.
+  - destruct (nloop nd) eqn:El; [discriminate|].
+    destruct Hin as [<-|Hin]; [|apply IH; auto].
+    unfold gl. rewrite (gnode_nth_error _ _ _ E). exact El.
+  - destruct Hin as [<-|Hin]; [|apply IH; auto]. apply nth_error_None in E. lia.
+Qed.
+
+Lemma first_loop_some g ups l : first_loop g ups = Some l -> exists u, In u ups /\ u < length g /\ gl g u = Some l.
+Proof.
+  induction ups as [|a ups IH]; simpl; intros H; [discriminate|].
+  destruct (nth_error g a) as [nd|] eqn:E.
+  - destruct (nloop nd) eqn:El.
+    + injection H as <-. exists a. split; [auto|]. split; [apply nth_error_Some; congruence|].
+      unfold gl. rewrite (gnode_nth_error _ _ _ E). exact El.
+    + destruct (IH H) as (u & Hu & Hl & Hg). exists u. auto.
+  - destruct (IH H) as (u & Hu & Hl & Hg). exists u. auto.
+Qed.
+
+Lemma first_true_cases g ups : first_true g ups = Some true \/ first_true g ups = None.
+Proof. unfold first_true. destruct (existsb _ ups); auto. Qed.
+
+Lemma first_true_none g ups : first_true g ups = None -> forall u, In u ups -> u < length g -> is_true (ga g u) = false.
+Proof.
+  unfold first_true. destruct (existsb _ ups) eqn:E; [discriminate|]. intros _ u Hin Hlt.
+  rewrite <- not_true_iff_false in E. rewrite <- not_true_iff_false. intros Ht. apply E.
+  apply existsb_exists. exists u. split; auto. rewrite (nth_error_gnode g u Hlt). exact Ht.
+Qed.
+
+Lemma first_true_some g ups : first_true g ups = Some true -> exists u, In u ups /\ u < length g /\ is_true (ga g u) = true.
+Proof.
+  unfold first_true. destruct (existsb _ ups) eqn:E; [|discriminate]. intros _.
+  apply existsb_exists in E. destruct E as (u & Hin & Hu). exists u. split; auto.
+  destruct (nth_error g u) as [nd|] eqn:En; [|discriminate].
+  split; [apply nth_error_Some; congruence|]. unfold ga. rewrite (gnode_nth_error _ _ _ En). exact Hu.
+Qed.
+
+(* ------------------------------------------------------------------------------------------ *)
+(* invariants of graphs built through the API *)
+Definition W (g : graph) : Prop :=
+  forall j u, j < length g -> In u (gu g j) -> u < j /\ In j (gd g u).
+(* along every edge: same loop (set or unset alike), same asynchronous-vs-blocking mode *)
+Definition Edge (g : graph) : Prop :=
+  forall j u, j < length g -> In u (gu g j) -> gl g u = gl g j /\ is_true (ga g u) = is_true (ga g j).
+Definition valid (g : graph) (r : request) : Prop := forall u, In u (r_ups r) -> u < length g.
+Definition uniform_ups (g : graph) (r : request) : Prop :=
+  forall u u', In u (r_ups r) -> In u' (r_ups r) -> gl g u = gl g u' /\ is_true (ga g u) = is_true (ga g u').
+Definition join_ok (c : cfg) (g : graph) (r : request) : Prop := fix_join c = true \/ uniform_ups g r.
+
+Lemma extL_W v g g' : extL v g g' -> W g -> W g'.
+Proof.
+  intros [L H] Hw j u Hj Hu. destruct (H j) as (Uj & _). destruct (H u) as (_ & Du & _).
+  rewrite Uj in Hu. rewrite Du. apply Hw; auto. congruence.
+Qed.
+Lemma extA_W v g g' : extA v g g' -> W g -> W g'.
+Proof.
+  intros [L H] Hw j u Hj Hu. destruct (H j) as (Uj & _). destruct (H u) as (_ & Du & _).
+  rewrite Uj in Hu. rewrite Du. apply Hw; auto. congruence.
+Qed.
+
+Lemma loop_stage_Edge g v ups g' : W g -> Edge g -> inform_loop g v ups = Ok g' -> Edge g'.
+Proof.
+  intros Hw He H. pose proof (inform_loop_ext _ _ _ _ (or_introl H)) as [L X].
+  destruct (inform_loop_ok _ _ _ _ H) as [_ C].
+  intros j u Hj Hu. rewrite L in Hj.
+  destruct (X j) as (Uj & _ & Aj & Lj). destruct (X u) as (_ & _ & Au & Lu).
+  rewrite Uj in Hu. destruct (Hw j u Hj Hu) as [Hlt Hd]. destruct (He j u Hj Hu) as [E1 E2].
+  split; [|congruence].
+  destruct Lu as [Lu|(Lu0 & Lu1 & _)].
+  - destruct Lj as [Lj|(Lj0 & Lj1 & _)]; [congruence|].
+    rewrite Lj1. apply (C j); auto; [apply in_or_app; auto|lia].
+  - rewrite Lu1. symmetry. apply (C u); auto. apply in_or_app; auto.
+Qed.
+
+Lemma async_stage_Edge g v ups g' : W g -> Edge g -> inform_async g v ups = Ok g' -> Edge g'.
+Proof.
+  intros Hw He H. pose proof (inform_async_ext _ _ _ _ (or_introl H)) as [L X].
+  destruct (inform_async_ok _ _ _ _ H) as [_ C].
+  intros j u Hj Hu. rewrite L in Hj.
+  destruct (X j) as (Uj & _ & Lj & Aj). destruct (X u) as (_ & _ & Lu & Au).
+  rewrite Uj in Hu. destruct (Hw j u Hj Hu) as [Hlt Hd]. destruct (He j u Hj Hu) as [E1 E2].
+  split; [congruence|].
+  destruct Au as [Au|(Au0 & Au1 & _)].
+  - destruct Aj as [Aj|(Aj0 & Aj1 & _)]; [congruence|].
+    rewrite Aj1. rewrite (C j); auto; [apply in_or_app; auto|lia].
+  - rewrite Au1. rewrite (C u); auto. apply in_or_app; auto.
+Qed.
+
+(* registering the new node with its upstreams *)
+Lemma add_down_fields d nd : nloop (add_down d nd) = nloop nd /\ nasync (add_down d nd) = nasync nd /\
+  nups (add_down d nd) = nups nd /\ (forall x, In x (ndowns nd) -> In x (ndowns (add_down d nd))) /\
+  In d (ndowns (add_down d nd)) /\ (forall x, In x (ndowns (add_down d nd)) -> In x (ndowns nd) \/ x = d).
+Proof.
+  unfold add_down. destruct (existsb (Nat.eqb d) (ndowns nd)) eqn:E.
+  - repeat split; auto. apply existsb_exists in E. destruct E as (x & Hx & Hd). apply Nat.eqb_eq in Hd. subst. exact Hx.
+  - simpl. repeat split; auto; intros; rewrite ?in_app_iff in *; simpl in *; intuition auto.
+Qed.
+
+Lemma add_downs_spec d : forall ups g,
+  length (add_downs ups d g) = length g /\
+  forall i, gl (add_downs ups d g) i = gl g i /\ ga (add_downs ups d g) i = ga g i /\
+            gu (add_downs ups d g) i = gu g i /\
+            (forall x, In x (gd g i) -> In x (gd (add_downs ups d g) i)) /\
+            (In i ups -> i < length g -> In d (gd (add_downs ups d g) i)).
+Proof.
+  induction ups as [|u ups IH]; intros g.
+  - simpl. split; auto. intros i. repeat split; auto. intros [].
+  - simpl. destruct (nth_error g u) as [nd|] eqn:E.
+    + assert (Hu : u < length g) by (apply nth_error_Some; congruence).
+      pose proof (gnode_nth_error _ _ _ E) as Hnd.
+      destruct (IH (set_nth u (add_down d nd) g)) as [L X]. rewrite set_nth_length in L.
+      split; [exact L|]. intros i. destruct (X i) as (X1 & X2 & X3 & X4 & X5).
+      destruct (add_down_fields d nd) as (F1 & F2 & F3 & F4 & F5 & _).
+      destruct (Nat.eq_dec u i) as [<-|Hne].
+      * unfold gl, ga, gu, gd in *. rewrite gnode_set_same in * by exact Hu. rewrite Hnd.
+        repeat split; try congruence.
+        -- intros x Hx. apply X4. apply F4. exact Hx.
+        -- intros _ _. apply X4. exact F5.
+      * unfold gl, ga, gu, gd in *. rewrite gnode_set_other in * by exact Hne.
+        repeat split; auto. intros [Hc|Hin] Hlt; [congruence|]. apply X5; auto. rewrite set_nth_length. exact Hlt.
+    + destruct (IH g) as [L X]. split; [exact L|]. intros i. destruct (X i) as (X1 & X2 & X3 & X4 & X5).
+      repeat split; auto. intros [<-|Hin] Hlt; [|auto]. apply nth_error_None in E. lia.
+Qed.
+
+Lemma gnode_app_l g nd i : i < length g -> gnode (g ++ [nd]) i = gnode g i.
+Proof. intros H. unfold gnode. apply app_nth1. exact H. Qed.
+Lemma gnode_app_new g nd : gnode (g ++ [nd]) (length g) = nd.
+Proof. unfold gnode. rewrite app_nth2 by lia. rewrite Nat.sub_diag. reflexivity. Qed.
+
+Lemma finish_inv g4 r l4 a3 :
+  W g4 -> Edge g4 -> valid g4 r ->
+  (forall u, In u (r_ups r) -> gl g4 u = l4 /\ is_true (ga g4 u) = is_true a3) ->
+  W (finish g4 r l4 a3) /\ Edge (finish g4 r l4 a3).
+Proof.
+  intros Hw He Hv Hups. unfold finish.
+  destruct (add_downs_spec (length g4) (r_ups r) g4) as [L X].
+  set (g5 := add_downs (r_ups r) (length g4) g4) in *.
+  set (nd := mkNode l4 a3 (r_ups r) []).
+  split.
+  - intros j u Hj Hu. rewrite app_length in Hj. simpl in Hj.
+    destruct (Nat.eq_dec j (length g5)) as [->|Hne].
+    + unfold gu in Hu. rewrite gnode_app_new in Hu. simpl in Hu.
+      pose proof (Hv u Hu) as Hlt. split; [lia|].
+      unfold gd. rewrite gnode_app_l by lia. destruct (X u) as (_ & _ & _ & _ & X5). rewrite L. apply X5; auto.
+    + assert (Hj' : j < length g4) by lia.
+      unfold gu in Hu. rewrite gnode_app_l in Hu by lia. destruct (X j) as (_ & _ & X3 & _).
+      fold (gu g5 j) in Hu. rewrite X3 in Hu. destruct (Hw j u Hj' Hu) as [Hlt Hd].
+      split; [exact Hlt|]. unfold gd. rewrite gnode_app_l by lia. destruct (X u) as (_ & _ & _ & X4 & _). apply X4. exact Hd.
+  - intros j u Hj Hu. rewrite app_length in Hj. simpl in Hj.
+    destruct (Nat.eq_dec j (length g5)) as [->|Hne].
+    + unfold gu in Hu. rewrite gnode_app_new in Hu. simpl in Hu.
+      pose proof (Hv u Hu) as Hlt. destruct (Hups u Hu) as [H1 H2].
+      unfold gl, ga. rewrite gnode_app_new. rewrite gnode_app_l by lia. simpl.
+      destruct (X u) as (X1 & X2 & _). unfold gl, ga in X1, X2. rewrite X1, X2. auto.
+    + assert (Hj' : j < length g4) by lia.
+      unfold gu in Hu. rewrite gnode_app_l in Hu by lia. destruct (X j) as (Xj1 & Xj2 & X3 & _).
+      fold (gu g5 j) in Hu. rewrite X3 in Hu. destruct (Hw j u Hj' Hu) as [Hlt Hd].
+      destruct (He j u Hj' Hu) as [E1 E2]. destruct (X u) as (Xu1 & Xu2 & _).
+      unfold gl, ga in *. rewrite !gnode_app_l by lia. rewrite Xj1, Xj2, Xu1, Xu2. auto.
+Qed.
+
+(* ------------------------------------------------------------------------------------------ *)
+(* one construction step preserves the invariants *)
+Lemma construct_ok_stages c g r gf : construct c g r = Ok gf ->
+  exists g1 g2 g3 g4,
+    stage1 c g r = Ok g1 /\ stage2 c g1 r = Ok g2 /\
+    stage3 (ensure_fires c r (self_async1 g r) (self_loop2 g1 r)) g2 r = Ok g3 /\
+    stage4 c g3 r (self_loop2 g1 r)
+           (self_async3 (ensure_fires c r (self_async1 g r) (self_loop2 g1 r)) (self_async1 g r)) = Ok g4 /\
+    gf = finish g4 r (self_loop4 c (self_loop2 g1 r)
+                        (self_async3 (ensure_fires c r (self_async1 g r) (self_loop2 g1 r)) (self_async1 g r)))
+                (self_async3 (ensure_fires c r (self_async1 g r) (self_loop2 g1 r)) (self_async1 g r)).
+Proof.
+  unfold construct. intros H.
+  destruct (stage1 c g r) as [g1| |] eqn:S1; cbn [bind] in H; try discriminate.
+  destruct (stage2 c g1 r) as [g2| |] eqn:S2; cbn [bind] in H; try discriminate.
+  destruct (stage3 _ g2 r) as [g3| |] eqn:S3; cbn [bind] in H; try discriminate.
+  destruct (stage4 c g3 r _ _) as [g4| |] eqn:S4; cbn [bind] in H; try discriminate.
+  injection H as <-. exists g1, g2, g3, g4. repeat split; assumption.
+Qed.
+
+Ltac keep_same := split; [assumption|]; split; [assumption|]; split; [reflexivity|]; split; [intros; reflexivity|].
+
+Lemma stage1_facts c g r g1 :
+  W g -> Edge g -> valid g r -> join_ok c g r -> stage1 c g r = Ok g1 ->
+  W g1 /\ Edge g1 /\ length g1 = length g /\ (forall i, gl g1 i = gl g i) /\
+  (forall u, In u (r_ups r) -> is_true (ga g1 u) = is_true (self_async1 g r)).
+Proof.
+  intros Hw He Hv Hj H. unfold stage1, self_async1 in *.
+  destruct (r_async r) as [a|].
+  - pose proof (inform_async_ext _ _ _ _ (or_introl H)) as X.
+    destruct (inform_async_ok _ _ _ _ H) as [K _].
+    split; [eapply extA_W; eauto|]. split; [eapply async_stage_Edge; eauto|].
+    destruct X as [L X]. split; [exact L|]. split; [intros i; apply X|].
+    intros u Hu. rewrite (K u Hu (Hv u Hu)). reflexivity.
+  - destruct (fix_join c) eqn:Fj.
+    + destruct (first_true_cases g (r_ups r)) as [Ft|Ft]; rewrite Ft in *.
+      * pose proof (inform_async_ext _ _ _ _ (or_introl H)) as X.
+        destruct (inform_async_ok _ _ _ _ H) as [K _].
+        split; [eapply extA_W; eauto|]. split; [eapply async_stage_Edge; eauto|].
+        destruct X as [L X]. split; [exact L|]. split; [intros i; apply X|].
+        intros u Hu. rewrite (K u Hu (Hv u Hu)). reflexivity.
+      * injection H as <-. keep_same. intros u Hu. simpl. apply first_true_none with (ups := r_ups r); auto.
+    + injection H as <-. keep_same. intros u Hu.
+      destruct Hj as [Hj|Hj]; [congruence|].
+      destruct (first_true_cases g (r_ups r)) as [Ft|Ft]; rewrite Ft.
+      * destruct (first_true_some _ _ Ft) as (u0 & Hu0 & _ & Ht). destruct (Hj u u0 Hu Hu0) as [_ E]. simpl. congruence.
+      * simpl. apply first_true_none with (ups := r_ups r); auto.
+Qed.
+
+Lemma stage2_facts c g1 r g2 :
+  W g1 -> Edge g1 -> valid g1 r ->
+  (fix_join c = true \/ forall u u', In u (r_ups r) -> In u' (r_ups r) -> gl g1 u = gl g1 u') ->
+  stage2 c g1 r = Ok g2 ->
+  W g2 /\ Edge g2 /\ length g2 = length g1 /\ (forall i, ga g2 i = ga g1 i) /\
+  (forall u, In u (r_ups r) -> gl g2 u = self_loop2 g1 r).
+Proof.
+  intros Hw He Hv Hj H. unfold stage2, self_loop2 in *.
+  destruct (r_loop r) as [l|].
+  - pose proof (inform_loop_ext _ _ _ _ (or_introl H)) as X.
+    destruct (inform_loop_ok _ _ _ _ H) as [K _].
+    split; [eapply extL_W; eauto|]. split; [eapply loop_stage_Edge; eauto|].
+    destruct X as [L X]. split; [exact L|]. split; [intros i; apply X|].
+    intros u Hu. apply K; auto.
+  - destruct (fix_join c) eqn:Fj.
+    + destruct (first_loop g1 (r_ups r)) as [l|] eqn:Fl.
+      * pose proof (inform_loop_ext _ _ _ _ (or_introl H)) as X.
+        destruct (inform_loop_ok _ _ _ _ H) as [K _].
+        split; [eapply extL_W; eauto|]. split; [eapply loop_stage_Edge; eauto|].
+        destruct X as [L X]. split; [exact L|]. split; [intros i; apply X|].
+        intros u Hu. apply K; auto.
+      * injection H as <-. keep_same. intros u Hu. apply first_loop_none with (ups := r_ups r); auto.
+    + injection H as <-. keep_same. intros u Hu.
+      destruct Hj as [Hj|Hj]; [congruence|].
+      destruct (first_loop g1 (r_ups r)) as [l|] eqn:Fl.
+      * destruct (first_loop_some _ _ _ Fl) as (u0 & Hu0 & _ & Hl). rewrite (Hj u u0 Hu Hu0). exact Hl.
+      * apply first_loop_none with (ups := r_ups r); auto.
+Qed.
+
+Lemma stage3_facts fire g2 r g3 a1 :
+  W g2 -> Edge g2 -> valid g2 r -> stage3 fire g2 r = Ok g3 ->
+  (forall u, In u (r_ups r) -> is_true (ga g2 u) = is_true a1) ->
+  W g3 /\ Edge g3 /\ length g3 = length g2 /\ (forall i, gl g3 i = gl g2 i) /\
+  (forall u, In u (r_ups r) -> is_true (ga g3 u) = is_true (self_async3 fire a1)).
+Proof.
+  intros Hw He Hv H Ha. unfold stage3, self_async3 in *. destruct fire.
+  - pose proof (inform_async_ext _ _ _ _ (or_introl H)) as X.
+    destruct (inform_async_ok _ _ _ _ H) as [K _].
+    split; [eapply extA_W; eauto|]. split; [eapply async_stage_Edge; eauto|].
+    destruct X as [L X]. split; [exact L|]. split; [intros i; apply X|].
+    intros u Hu. rewrite (K u Hu (Hv u Hu)). reflexivity.
+  - injection H as <-. keep_same. exact Ha.
+Qed.
+
+Lemma stage4_facts c g3 r l2 a3 g4 :
+  W g3 -> Edge g3 -> valid g3 r -> stage4 c g3 r l2 a3 = Ok g4 ->
+  (forall u, In u (r_ups r) -> gl g3 u = l2) ->
+  W g4 /\ Edge g4 /\ length g4 = length g3 /\ (forall i, ga g4 i = ga g3 i) /\
+  (forall u, In u (r_ups r) -> gl g4 u = self_loop4 c l2 a3).
+Proof.
+  intros Hw He Hv H Hl. unfold stage4, self_loop4 in *.
+  destruct l2 as [l|]; [injection H as <-; keep_same; auto|].
+  destruct a3 as [a|]; [|injection H as <-; keep_same; auto].
+  pose proof (inform_loop_ext _ _ _ _ (or_introl H)) as X.
+  destruct (inform_loop_ok _ _ _ _ H) as [K _].
+  split; [eapply extL_W; eauto|]. split; [eapply loop_stage_Edge; eauto|].
+  destruct X as [L X]. split; [exact L|]. split; [intros i; apply X|].
+  intros u Hu. apply K; auto.
+Qed.
+
+Theorem construct_inv c g r g' :
+  W g -> Edge g -> valid g r -> join_ok c g r -> construct c g r = Ok g' -> W g' /\ Edge g'.
+Proof.
+  intros Hw He Hv Hj H.
+  destruct (construct_ok_stages _ _ _ _ H) as (g1 & g2 & g3 & g4 & S1 & S2 & S3 & S4 & ->).
+  destruct (stage1_facts _ _ _ _ Hw He Hv Hj S1) as (W1 & E1 & L1 & G1 & A1).
+  assert (V1 : valid g1 r) by (intros u Hu; rewrite L1; auto).
+  assert (J1 : fix_join c = true \/ forall u u', In u (r_ups r) -> In u' (r_ups r) -> gl g1 u = gl g1 u').
+  { destruct Hj as [Hj|Hj]; [auto|]. right. intros u u' Hu Hu'. rewrite !G1. apply Hj; auto. }
+  destruct (stage2_facts _ _ _ _ W1 E1 V1 J1 S2) as (W2 & E2 & L2 & G2 & A2).
+  assert (V2 : valid g2 r) by (intros u Hu; rewrite L2; auto).
+  assert (A1' : forall u, In u (r_ups r) -> is_true (ga g2 u) = is_true (self_async1 g r)).
+  { intros u Hu. rewrite G2. auto. }
+  destruct (stage3_facts _ _ _ _ _ W2 E2 V2 S3 A1') as (W3 & E3 & L3 & G3 & A3).
+  assert (V3 : valid g3 r) by (intros u Hu; rewrite L3; auto).
+  assert (A2' : forall u, In u (r_ups r) -> gl g3 u = self_loop2 g1 r).
+  { intros u Hu. rewrite G3. auto. }
+  destruct (stage4_facts _ _ _ _ _ _ W3 E3 V3 S4 A2') as (W4 & E4 & L4 & G4 & A4).
+  assert (V4 : valid g4 r) by (intros u Hu; rewrite L4; auto).
+  apply finish_inv; auto.
+  intros u Hu. split; [apply A4; auto|]. rewrite G4. apply A3; auto.
+Qed.
+
+(* ------------------------------------------------------------------------------------------ *)
+(* whole sessions *)
+Inductive Built (c : cfg) : graph -> Prop :=
+| Built_nil : Built c []
+| Built_step g r g' : Built c g -> valid g r -> join_ok c g r -> construct c g r = Ok g' -> Built c g'.
+
+(* the same, by recursion over the list of requests *)
+Fixpoint Session (c : cfg) (g : graph) (rs : list request) (gf : graph) : Prop :=
+  match rs with
+  | [] => gf = g
+  | r :: rs' => valid g r /\ join_ok c g r /\ exists g', construct c g r = Ok g' /\ Session c g' rs' gf
+  end.
+
+Lemma Session_Built c : forall rs g gf, Built c g -> Session c g rs gf -> Built c gf.
+Proof.
+  induction rs as [|r rs IH]; intros g gf Hb Hs; simpl in Hs.
+  - subst. exact Hb.
+  - destruct Hs as (Hv & Hj & g' & Hc & Hs). apply (IH g'); auto. eapply Built_step; eauto.
+Qed.
+
+Lemma Built_inv c g : Built c g -> W g /\ Edge g.
+Proof.
+  induction 1 as [|g r g' Hb [Hw He] Hv Hj Hc].
+  - split; intros j u Hj; simpl in Hj; lia.
+  - eapply construct_inv; eauto.
+Qed.
+
+(* requests with at most one upstream (the linear fluent API) never need the join side condition *)
+Lemma single_upstream_join_ok c g r : length (r_ups r) <= 1 -> join_ok c g r.
+Proof.
+  intros H. right. intros u u' Hu Hu'. destruct (r_ups r) as [|x [|y t]]; simpl in *; try lia; try tauto.
+  destruct Hu as [<-|[]], Hu' as [<-|[]]. auto.
+Qed.
+
+Inductive connected (g : graph) : nat -> nat -> Prop :=
+| conn_refl i : connected g i i
+| conn_up j u : j < length g -> In u (gu g j) -> connected g j u
+| conn_down j u : j < length g -> In u (gu g j) -> connected g u j
+| conn_trans i j k : connected g i j -> connected g j k -> connected g i k.
+
+Theorem one_loop_strong c g i j :
+  Built c g -> connected g i j -> gl g i = gl g j /\ is_true (ga g i) = is_true (ga g j).
+Proof.
+  intros Hb Hc. destruct (Built_inv _ _ Hb) as [_ He].
+  induction Hc as [i|j u Hj Hu|j u Hj Hu|i j k _ [A1 A2] _ [B1 B2]].
+  - auto.
+  - destruct (He j u Hj Hu). auto.
+  - destruct (He j u Hj Hu). auto.
+  - split; congruence.
+Qed.
+
+Theorem one_loop c g i j la lb :
+  Built c g -> connected g i j -> gl g i = Some la -> gl g j = Some lb -> la = lb.
+Proof. intros Hb Hc Ha Hb'. destruct (one_loop_strong _ _ _ _ Hb Hc) as [E _]. congruence. Qed.
+
+Theorem one_mode c g i j a b :
+  Built c g -> connected g i j -> ga g i = Some a -> ga g j = Some b -> a = b.
+Proof.
+  intros Hb Hc Ha Hb'. destruct (one_loop_strong _ _ _ _ Hb Hc) as [_ E]. rewrite Ha, Hb' in E.
+  destruct a, b; simpl in E; congruence.
+Qed.
+
+Theorem one_loop_sessions c rs g i j :
+  Session c [] rs g -> connected g i j ->
+  (forall la lb, gl g i = Some la -> gl g j = Some lb -> la = lb) /\
+  (forall a b, ga g i = Some a -> ga g j = Some b -> a = b).
+Proof.
+  intros Hs Hc. pose proof (Session_Built c rs [] g (Built_nil c) Hs) as Hb. split; intros.
+  - eapply one_loop; eauto.
+  - eapply one_mode; eauto.
+Qed.
+
+(* ------------------------------------------------------------------------------------------ *)
+(* a construction, successful or not, only ever FILLS unset fields of existing nodes *)
+Definition fills (g g' : graph) : Prop :=
+  length g' = length g /\
+  forall i, gu g' i = gu g i /\ gd g' i = gd g i /\
+            (gl g' i = gl g i \/ gl g i = None) /\ (ga g' i = ga g i \/ ga g i = None).
+
+Lemma fills_refl g : fills g g.
+Proof. split; auto. Qed.
+Lemma fills_trans g1 g2 g3 : fills g1 g2 -> fills g2 g3 -> fills g1 g3.
+Proof.
+  intros [L1 H1] [L2 H2]. split; [congruence|]. intros i.
+  destruct (H1 i) as (U1 & D1 & [A1|A1] & [B1|B1]), (H2 i) as (U2 & D2 & [A2|A2] & [B2|B2]);
+    repeat split; try congruence; try (left; congruence); try (right; congruence).
+Qed.
+Lemma extL_fills v g g' : extL v g g' -> fills g g'.
+Proof.
+  intros [L H]. split; auto. intros i. destruct (H i) as (U & D & A & [E|(E & _)]); repeat split; auto; try (left; congruence).
+Qed.
+Lemma extA_fills v g g' : extA v g g' -> fills g g'.
+Proof.
+  intros [L H]. split; auto. intros i. destruct (H i) as (U & D & A & [E|(E & _)]); repeat split; auto; try (left; congruence).
+Qed.
+
+Lemma stage1_fills c g r g' : stage1 c g r = Ok g' \/ stage1 c g r = Raise g' ->
+  fills g g' /\ forall i, gl g' i = gl g i.
+Proof.
+  unfold stage1. intros H.
+  assert (K : forall a, inform_async g a (r_ups r) = Ok g' \/ inform_async g a (r_ups r) = Raise g' ->
+                        fills g g' /\ forall i, gl g' i = gl g i).
+  { intros a Ha. pose proof (inform_async_ext _ _ _ _ Ha) as X. split; [eapply extA_fills; eauto|].
+    intros i. apply X. }
+  destruct (r_async r); [eauto|]. destruct (fix_join c).
+  - destruct (self_async1 g r); [eauto|]. destruct H as [H|H]; try discriminate. injection H as <-. split; auto using fills_refl.
+  - destruct H as [H|H]; try discriminate. injection H as <-. split; auto using fills_refl.
+Qed.
+
+Lemma stage2_fills c g r g' : stage2 c g r = Ok g' \/ stage2 c g r = Raise g' -> fills g g'.
+Proof.
+  unfold stage2. intros H.
+  assert (K : forall a, inform_loop g a (r_ups r) = Ok g' \/ inform_loop g a (r_ups r) = Raise g' -> fills g g').
+  { intros a Ha. eapply extL_fills. eapply inform_loop_ext; eauto. }
+  destruct (r_loop r); [eauto|]. destruct (fix_join c).
+  - destruct (self_loop2 g r); [eauto|]. destruct H as [H|H]; try discriminate. injection H as <-. apply fills_refl.
+  - destruct H as [H|H]; try discriminate. injection H as <-. apply fills_refl.
+Qed.
+
+Lemma stage3_fills f g r g' : stage3 f g r = Ok g' \/ stage3 f g r = Raise g' -> fills g g'.
+Proof.
+  unfold stage3. intros H. destruct f.
+  - eapply extA_fills. eapply inform_async_ext; eauto.
+  - destruct H as [H|H]; try discriminate. injection H as <-. apply fills_refl.
+Qed.
+
+Lemma stage4_fills c g r l a g' : stage4 c g r l a = Ok g' \/ stage4 c g r l a = Raise g' -> fills g g'.
+Proof.
+  unfold stage4. intros H. destruct l.
+  - destruct H as [H|H]; try discriminate. injection H as <-. apply fills_refl.
+  - destruct a.
+    + eapply extL_fills. eapply inform_loop_ext; eauto.
+    + destruct H as [H|H]; try discriminate. injection H as <-. apply fills_refl.
+Qed.
+
+Theorem construct_raise_fills c g r g' : construct c g r = Raise g' -> fills g g'.
+Proof.
+  unfold construct. intros H.
+  destruct (stage1 c g r) as [g1|g1|] eqn:S1; cbn [bind] in H; try discriminate;
+    [|injection H as <-; apply (stage1_fills c g r); auto].
+  pose proof (proj1 (stage1_fills c g r g1 (or_introl S1))) as F1.
+  destruct (stage2 c g1 r) as [g2|g2|] eqn:S2; cbn [bind] in H; try discriminate;
+    [|injection H as <-; eapply fills_trans; [exact F1|eapply stage2_fills; eauto]].
+  pose proof (stage2_fills c g1 r g2 (or_introl S2)) as F2.
+  destruct (stage3 _ g2 r) as [g3|g3|] eqn:S3; cbn [bind] in H; try discriminate;
+    [|injection H as <-; eapply fills_trans; [exact F1|]; eapply fills_trans; [exact F2|eapply stage3_fills; eauto]].
+  pose proof (stage3_fills _ g2 r g3 (or_introl S3)) as F3.
+  destruct (stage4 c g3 r _ _) as [g4|g4|] eqn:S4; cbn [bind] in H; try discriminate.
+  injection H as <-. eapply fills_trans; [exact F1|]. eapply fills_trans; [exact F2|].
+  eapply fills_trans; [exact F3|]. eapply stage4_fills; eauto.
+Qed.
+
+(* shape of a successful construction: the graph grows by exactly one node, whose fields are the self_* values *)
+Lemma construct_ok_new c g r g' : construct c g r = Ok g' ->
+  exists g1, stage1 c g r = Ok g1 /\ length g1 = length g /\ (forall i, gl g1 i = gl g i) /\
+    length g' = S (length g) /\
+    gnode g' (length g) =
+      mkNode (self_loop4 c (self_loop2 g1 r)
+                (self_async3 (ensure_fires c r (self_async1 g r) (self_loop2 g1 r)) (self_async1 g r)))
+             (self_async3 (ensure_fires c r (self_async1 g r) (self_loop2 g1 r)) (self_async1 g r))
+             (r_ups r) [].
+Proof.
+  intros H. destruct (construct_ok_stages _ _ _ _ H) as (g1 & g2 & g3 & g4 & S1 & S2 & S3 & S4 & ->).
+  destruct (stage1_fills c g r g1 (or_introl S1)) as [[L1 _] G1].
+  destruct (stage2_fills c g1 r g2 (or_introl S2)) as [L2 _].
+  destruct (stage3_fills _ g2 r g3 (or_introl S3)) as [L3 _].
+  destruct (stage4_fills _ g3 r _ _ g4 (or_introl S4)) as [L4 _].
+  exists g1. split; [exact S1|]. split; [exact L1|]. split; [exact G1|].
+  assert (L : length g4 = length g) by congruence.
+  destruct (add_downs_spec (length g4) (r_ups r) g4) as [La _].
+  unfold finish. split.
+  - rewrite app_length, La. simpl. lia.
+  - rewrite <- L. set (g5 := add_downs (r_ups r) (length g4) g4) in *. rewrite <- La. apply gnode_app_new.
+Qed.
+
+Lemma first_loop_congr g g' ups : length g' = length g -> (forall i, gl g' i = gl g i) ->
+  first_loop g' ups = first_loop g ups.
+Proof.
+  intros L H. induction ups as [|u ups IH]; simpl; [reflexivity|]. rewrite IH.
+  destruct (nth_error g u) as [nd|] eqn:E.
+  - assert (Hu : u < length g) by (apply nth_error_Some; congruence).
+    rewrite (nth_error_gnode g' u) by lia. specialize (H u). unfold gl in H.
+    rewrite (gnode_nth_error _ _ _ E) in H. rewrite H. reflexivity.
+  - apply nth_error_None in E. assert (E' : nth_error g' u = None) by (apply nth_error_None; lia).
+    rewrite E'. reflexivity.
+Qed.
+
+(* ------------------------------------------------------------------------------------------ *)
+(* the property's clauses, one construction step at a time (g is ANY graph: no invariant needed) *)
+
+(* inherits: nothing explicit, some upstream has a loop -> the node is created, on that loop, asynchronous iff an
+   upstream is (as found: nothing else is touched) *)
+Theorem inherits c g r l :
+  fix_join c = false -> r_async r = None -> r_loop r = None -> first_loop g (r_ups r) = Some l ->
+  construct c g r = Ok (finish g r (Some l) (first_true g (r_ups r))).
+Proof.
+  intros Fj Ha Hl Fl. unfold construct, stage1, stage2, self_async1, self_loop2.
+  rewrite Ha, Hl, Fj. cbn [bind]. rewrite Fl.
+  unfold ensure_fires. cbn [is_none]. rewrite andb_false_r. cbn [andb stage3 self_async3 bind stage4 self_loop4].
+  reflexivity.
+Qed.
+
+(* in any variant: if the node is created it is on the inherited loop, asynchronous iff an upstream is *)
+Theorem inherits_any c g r l g' :
+  r_async r = None -> r_loop r = None -> first_loop g (r_ups r) = Some l -> construct c g r = Ok g' ->
+  gl g' (length g) = Some l /\ ga g' (length g) = first_true g (r_ups r).
+Proof.
+  intros Ha Hl Fl H. destruct (construct_ok_new _ _ _ _ H) as (g1 & S1 & L1 & G1 & L' & N).
+  unfold gl, ga. rewrite N. cbn [nloop nasync].
+  unfold self_loop2, self_async1. rewrite Ha, Hl. rewrite (first_loop_congr g g1 _ L1 G1), Fl.
+  unfold ensure_fires. cbn [is_none]. rewrite andb_false_r. cbn [andb self_async3 self_loop4]. auto.
+Qed.
+
+Corollary inherits_single c g r u l g' :
+  r_async r = None -> r_loop r = None -> r_ups r = [u] -> u < length g -> gl g u = Some l ->
+  construct c g r = Ok g' ->
+  gl g' (length g) = Some l /\ is_true (ga g' (length g)) = is_true (ga g u).
+Proof.
+  intros Ha Hl Hu Hlt Hg H.
+  assert (Fl : first_loop g (r_ups r) = Some l).
+  { rewrite Hu. simpl. rewrite (nth_error_gnode g u Hlt). unfold gl in Hg. rewrite Hg. reflexivity. }
+  destruct (inherits_any _ _ _ _ _ Ha Hl Fl H) as [A B]. split; [exact A|]. rewrite B, Hu.
+  unfold first_true. simpl. rewrite (nth_error_gnode g u Hlt). fold (ga g u). rewrite orb_false_r.
+  destruct (is_true (ga g u)); reflexivity.
+Qed.
+
+(* conflict_raises *)
+Theorem conflict_raises_loop c g r l u l' :
+  r_loop r = Some l -> In u (r_ups r) -> u < length g -> gl g u = Some l' -> l' <> l ->
+  exists g', construct c g r = Raise g' /\ fills g g'.
+Proof.
+  intros Hl Hu Hlt Hg Hne.
+  destruct (construct c g r) as [g'|g'|] eqn:E.
+  - exfalso. destruct (construct_ok_stages _ _ _ _ E) as (g1 & g2 & g3 & g4 & S1 & S2 & _).
+    destruct (stage1_fills c g r g1 (or_introl S1)) as [[L1 _] G1].
+    unfold stage2 in S2. rewrite Hl in S2.
+    destruct (inform_loop_ok _ _ _ _ S2) as [K _]. specialize (K u Hu). rewrite L1 in K. specialize (K Hlt).
+    destruct (inform_loop_ext _ _ _ _ (or_introl S2)) as [_ X].
+    destruct (X u) as (_ & _ & _ & [Y|(Y & _)]); rewrite G1 in Y; congruence.
+  - exists g'. split; auto. eapply construct_raise_fills; eauto.
+  - exfalso. eapply construct_fuel_enough; eauto.
+Qed.
+
+Theorem conflict_raises_mode c g r a u a' :
+  r_async r = Some a -> In u (r_ups r) -> u < length g -> ga g u = Some a' -> a' <> a ->
+  exists g', construct c g r = Raise g' /\ fills g g'.
+Proof.
+  intros Ha Hu Hlt Hg Hne.
+  destruct (construct c g r) as [g'|g'|] eqn:E.
+  - exfalso. destruct (construct_ok_stages _ _ _ _ E) as (g1 & g2 & g3 & g4 & S1 & _).
+    unfold stage1 in S1. rewrite Ha in S1.
+    destruct (inform_async_ok _ _ _ _ S1) as [K _]. specialize (K u Hu Hlt).
+    destruct (inform_async_ext _ _ _ _ (or_introl S1)) as [_ X].
+    destruct (X u) as (_ & _ & _ & [Y|(Y & _)]); congruence.
+  - exists g'. split; auto. eapply construct_raise_fills; eauto.
+  - exfalso. eapply construct_fuel_enough; eauto.
+Qed.
+
+(* ... and when the conflicting node is the (first) upstream itself, nothing at all was touched *)
+Theorem conflict_mode_unchanged c g r a u rest a' :
+  r_async r = Some a -> r_ups r = u :: rest -> u < length g -> ga g u = Some a' -> a' <> a ->
+  construct c g r = Raise g.
+Proof.
+  intros Ha Hu Hlt Hg Hne. unfold construct, stage1. rewrite Ha, Hu.
+  unfold inform_async.
+  rewrite (inform_conflict_head bool Bool.eqb nasync put_async bool_eqb_spec g a u rest a' Hlt Hg Hne).
+  reflexivity.
+Qed.
+
+Theorem conflict_loop_unchanged c g r l u rest l' :
+  fix_join c = false -> r_async r = None -> r_loop r = Some l -> r_ups r = u :: rest -> u < length g ->
+  gl g u = Some l' -> l' <> l -> construct c g r = Raise g.
+Proof.
+  intros Fj Ha Hl Hu Hlt Hg Hne. unfold construct, stage1, stage2. rewrite Ha, Fj, Hl, Hu. cbn [bind].
+  unfold inform_loop.
+  rewrite (inform_conflict_head loop_id loop_eqb nloop put_loop loop_eqb_spec g l u rest l' Hlt Hg Hne).
+  reflexivity.
+Qed.
+
+(* declared_async_on_current (repaired __init__): asynchronous=True, no explicit loop, no upstream loop:
+   whenever the node is created it sits on the caller's loop and stays asynchronous — never the background loop *)
+Theorem declared_async_on_current c g r g' :
+  fix_init c = true -> r_async r = Some true -> r_loop r = None -> first_loop g (r_ups r) = None ->
+  construct c g r = Ok g' ->
+  gl g' (length g) = Some Current /\ ga g' (length g) = Some true.
+Proof.
+  intros Fi Ha Hl Fl H. destruct (construct_ok_new _ _ _ _ H) as (g1 & S1 & L1 & G1 & L' & N).
+  unfold gl, ga. rewrite N. cbn [nloop nasync].
+  unfold self_loop2, self_async1. rewrite Ha, Hl. rewrite (first_loop_congr g g1 _ L1 G1), Fl.
+  unfold ensure_fires. rewrite Fi. cbn [is_none negb orb]. rewrite andb_false_r.
+  cbn [self_async3 self_loop4 get_io_loop]. auto.
+Qed.
+
+(* a source (no upstreams) declared asynchronous: always created, on the caller's loop *)
+Theorem declared_async_source c g a_ens :
+  fix_init c = true ->
+  construct c g (mkReq [] (Some true) None a_ens) = Ok (g ++ [mkNode (Some Current) (Some true) [] []]).
+Proof.
+  intros Fi. unfold construct, stage1, stage2, self_async1, self_loop2. cbn [r_async r_loop r_ups r_ensure].
+  unfold inform_async, inform_loop. rewrite !inform_nil. cbn [bind first_loop fold_right].
+  destruct (fix_join c); cbn [bind];
+    unfold ensure_fires; rewrite Fi; cbn [r_ensure is_none negb orb]; rewrite andb_false_r;
+    cbn [stage3 self_async3 bind stage4 self_loop4 get_io_loop r_ups];
+    unfold inform_loop; rewrite inform_nil; cbn [bind]; reflexivity.
+Qed.
+
+(* fallback_background: needs a loop, nothing declared, nothing inherited *)
+Theorem fallback_background c g r g' :
+  r_ensure r = true -> r_async r = None -> r_loop r = None ->
+  first_loop g (r_ups r) = None -> first_true g (r_ups r) = None ->
+  construct c g r = Ok g' ->
+  gl g' (length g) = Some (bg_loop c) /\ ga g' (length g) = Some false.
+Proof.
+  intros He Ha Hl Fl Ft H. destruct (construct_ok_new _ _ _ _ H) as (g1 & S1 & L1 & G1 & L' & N).
+  unfold gl, ga. rewrite N. cbn [nloop nasync].
+  unfold self_loop2, self_async1. rewrite Ha, Hl. rewrite (first_loop_congr g g1 _ L1 G1), Fl, Ft.
+  unfold ensure_fires. rewrite He. cbn [is_none andb]. rewrite orb_true_r.
+  cbn [self_async3 self_loop4 get_io_loop]. auto.
+Qed.
+
+Lemma inform_async_nil g v : inform_async g v [] = Ok g.
+Proof. apply inform_nil. Qed.
+Lemma inform_loop_nil g v : inform_loop g v [] = Ok g.
+Proof. apply inform_nil. Qed.
+
+Theorem fallback_background_source c g :
+  construct c g (mkReq [] None None true) = Ok (g ++ [mkNode (Some (bg_loop c)) (Some false) [] []]).
+Proof.
+  unfold construct, stage1, stage2, self_async1, self_loop2. cbn [r_async r_loop r_ups r_ensure].
+  cbn [first_true existsb first_loop fold_right].
+  destruct (fix_join c); cbn [bind];
+    unfold ensure_fires; cbn [r_ensure is_none andb]; rewrite orb_true_r;
+    cbn [stage3 self_async3 bind stage4 self_loop4 get_io_loop r_ups];
+    rewrite ?inform_async_nil; cbn [bind]; rewrite ?inform_loop_nil; cbn [bind]; reflexivity.
+Qed.
+
+(* ------------------------------------------------------------------------------------------ *)
+(* refutations for the code AS FOUND *)
+
+(* Source(asynchronous=True): created, but blocking and on the background loop *)
+Theorem declared_async_on_current_refuted :
+  exists g r, r_async r = Some true /\ r_loop r = None /\ first_loop g (r_ups r) = None /\
+    exists g', construct as_found g r = Ok g' /\
+               gl g' (length g) = Some Background /\ ga g' (length g) = Some false.
+Proof.
+  exists [], (mkReq [] (Some true) None true). repeat split.
+  eexists. split; [vm_compute; reflexivity|]. vm_compute. auto.
+Qed.
+
+(* Stream().buffer(2, asynchronous=True): raises although nothing in the pipeline conflicts, and leaves the
+   upstream marked asynchronous *)
+Theorem declared_async_raises_refuted :
+  exists g r, r_async r = Some true /\ r_loop r = None /\ first_loop g (r_ups r) = None /\
+    (forall i, ga g i <> Some false) /\
+    construct as_found g r = Raise [mkNode None (Some true) [] []].
+Proof.
+  exists [mkNode None None [] []], (mkReq [0] (Some true) None true). repeat split.
+  intros [|[|i]]; vm_compute; discriminate.
+Qed.
+
+(* joining an asynchronous and a blocking pipeline (nothing explicit on the join) silently yields ONE connected
+   pipeline on TWO loops; holds as found and with __init__ repaired: the side condition join_ok of one_loop is needed *)
+Theorem one_loop_join_refuted : forall fi,
+  exists rs g, build (mkCfg fi false false) [] rs = Some g /\ connected g 0 1 /\
+    gl g 0 = Some Current /\ gl g 1 = Some Background /\ ga g 0 = Some true /\ ga g 1 = Some false.
+Proof.
+  intros fi.
+  exists [mkReq [] (Some true) None false; mkReq [] (Some false) None false; mkReq [0; 1] None None false].
+  eexists. split; [destruct fi; vm_compute; reflexivity|].
+  split.
+  - apply conn_trans with (j := 2); [apply conn_down|apply conn_up]; simpl; auto.
+  - vm_compute. auto.
+Qed.
+
+(* with the join percolation the same session raises *)
+Example join_fix_raises :
+  build (mkCfg true true false) [] [mkReq [] (Some true) None false; mkReq [] (Some false) None false;
+                                   mkReq [0; 1] None None false] = None.
+Proof. vm_compute. reflexivity. Qed.
+
+(* a loop-less upstream joined into a pipeline that has a loop stays loop-less (as found) *)
+Example loopless_upstream_stays :
+  exists g, build as_found [] [mkReq [] None None false; mkReq [] None None false; mkReq [1] None None true;
+                               mkReq [0; 2] None None false] = Some g /\
+            gl g 0 = None /\ gl g 3 = Some Background.
+Proof. eexists. split; [vm_compute; reflexivity|]. vm_compute. auto. Qed.
